@@ -3349,7 +3349,15 @@ class TLSConnection(TLSRecordLayer):
                                             signature_scheme, None, None, None,
                                             prf_name, b'client')
 
-            public_key = client_cert_chain.getEndEntityPublicKey()
+            # check the client's key against our key size / curve policy
+            for result in self._check_certchain_with_settings(
+                    client_cert_chain,
+                    settings):
+                if result in (0, 1):
+                    yield result
+                else:
+                    break
+            public_key = result
 
             if signature_scheme in (SignatureScheme.ed25519,
                     SignatureScheme.ed448, SignatureScheme.mldsa44,
